@@ -58,7 +58,16 @@ class AsyncFakeSocket(_fakesocket.FakeSocket):
 
         def callback():
             loop.call_soon_threadsafe(event.set)
-        self._db.add_change_callback(callback)
+        server, db = self._server, self._db
+        db.add_change_callback(callback)
         self.pause()
-        self._blocking_task = loop.create_task(self._async_blocking(timeout, func, event, callback))
+        task = loop.create_task(self._async_blocking(timeout, func, event, callback))
+
+        def forget(_):
+            # A task cancelled before its first step (the connection is closed in the
+            # same turn of the event loop) never reaches its own clean-up
+            with server.lock:
+                db.remove_change_callback(callback)
+        task.add_done_callback(forget)
+        self._blocking_task = task
         return _helpers.NoResponse()
